@@ -26,7 +26,8 @@ func (h heapSort) smt() string {
 // keys not yet touched on this path.
 type HeapView struct {
 	m    map[string]string
-	base string // generation tag of untouched keys ("0" = function entry)
+	base string            // generation tag of untouched keys ("0" = function entry)
+	pre  map[string]string // havocked key prefixes -> generation tag
 }
 
 func (h *HeapView) clone() *HeapView {
@@ -34,7 +35,28 @@ func (h *HeapView) clone() *HeapView {
 	for k, v := range h.m {
 		n.m[k] = v
 	}
+	if len(h.pre) > 0 {
+		n.pre = make(map[string]string, len(h.pre))
+		for k, v := range h.pre {
+			n.pre[k] = v
+		}
+	}
 	return n
+}
+
+// havocPrefix forgets every key with the given prefix (touched or not).
+func (st *State) havocPrefix(prefix string) {
+	st.fx.counter++
+	gen := fmt.Sprintf("hp%d", st.fx.counter)
+	for k := range st.heap.m {
+		if k == prefix || strings.HasPrefix(k, prefix+".") || strings.HasPrefix(k, prefix+"#") {
+			delete(st.heap.m, k)
+		}
+	}
+	if st.heap.pre == nil {
+		st.heap.pre = map[string]string{}
+	}
+	st.heap.pre[prefix] = gen
 }
 
 type deferred struct {
@@ -63,6 +85,8 @@ type State struct {
 	quiet    int // >0: panic obligations suppressed (rematerialisation)
 	quietInv int // >0: no type-invariant assumptions (under a binder)
 	callBrk  string
+	frame    []frameLoc
+	hasFrame bool
 }
 
 func (st *State) clone() *State {
@@ -140,6 +164,11 @@ func (st *State) heapTermIn(h *HeapView, key string, arity int, sort string) str
 	gen := h.base
 	if gen != "0" && !st.fx.modified(key) {
 		gen = "0"
+	}
+	for p, g := range h.pre {
+		if key == p || strings.HasPrefix(key, p+".") || strings.HasPrefix(key, p+"#") {
+			gen = g
+		}
 	}
 	name := sym("H" + gen + ":" + mangleKey(key))
 	st.declare(name, hs.smt())
@@ -231,6 +260,9 @@ func (st *State) loadAtIn(h *HeapView, a Addr) Value {
 		v.Len = selectChain(st.heapTermIn(h, a.Key+"#len", len(idx), "Int"), idx)
 		v.Cap = selectChain(st.heapTermIn(h, a.Key+"#cap", len(idx), "Int"), idx)
 		st.assumeSliceInv(v)
+		if st.quietInv == 0 && st.fx.eng.nonNilGlobals[a.Key] {
+			st.assume("(not (= " + v.Arr + " 0))")
+		}
 		return v
 	case VArray:
 		arr := t.Underlying().(*types.Array)
@@ -249,6 +281,9 @@ func (st *State) loadAtIn(h *HeapView, a Addr) Value {
 	v := Value{K: k, T: term, Ty: t}
 	st.assumeTypeInv(v)
 	st.assumeNonNil(v)
+	if st.quietInv == 0 && st.fx.eng.nonNilGlobals[a.Key] && (k == VRef || k == VIface || k == VFunc || k == VMap || k == VChan) {
+		st.assume("(not (= " + term + " 0))")
+	}
 	return v
 }
 
